@@ -77,6 +77,7 @@ type Thread struct {
 	IsTimer  bool
 	Quiescing bool
 	OthersStepped bool // some other thread took a visible step since this thread last slept
+	HasSlept bool
 	Sleeps   int   // contended sleeps so far (spin cut)
 	Slept    *Term // accumulated sleep time (ns)
 	// happens-before vector clock (race mode)
@@ -134,6 +135,9 @@ type schedNode struct {
 	tid   int
 	alt   int
 	what  string
+	name  string
+	// lazily formatted location: the frames of the thread when it was scheduled
+	frames []*Frame
 }
 
 type State struct {
